@@ -208,6 +208,41 @@ func c20TScenarios() []tScenario {
 			n := tNode(b)
 			return []tThread{{"join", func() string { _, err := n.M.Join([]string{"10.0.0.2:7946"}); return fmt.Sprint(err != nil) }}, shutdownT(n, "shutdown1")}, lifecycleFinish(n, false)
 		}},
+		{Name: "shutdown||send-reliable||send-best-effort||ping", Build: func(b *bubble) ([]tThread, func(map[string]string) (string, string, string)) {
+			n := tNode(b)
+			peer := &ml.Node{Name: "p", Addr: ip4(2), Port: 7946}
+			return []tThread{shutdownT(n, "shutdown1"),
+				{"reliable", func() string { return fmt.Sprint(n.M.SendReliable(peer, []byte("r")) != nil) }},
+				{"besteffort", func() string { _ = n.M.SendBestEffort(peer, []byte("b")); return "ok" }},
+				{"ping", func() string { _, err := n.M.Ping("p", simTCPAddr{"10.0.0.2:7946"}); return fmt.Sprint(err != nil) }},
+			}, lifecycleFinish(n, false)
+		}, Horizon: 10 * time.Second},
+		{Name: "shutdown||inbound-tcp-ping||inbound-packet-ping", Build: func(b *bubble) ([]tThread, func(map[string]string) (string, string, string)) {
+			n := tNode(b)
+			pg, _ := ml.VEncode(ml.VPingMsg, &ml.VPing{SeqNo: 77, Node: "o", SourceAddr: ip4(2), SourcePort: 7946, SourceNode: "p"}, false)
+			return []tThread{shutdownT(n, "shutdown1"),
+				{"stream", func() string {
+					c1, c2 := simPipe(simAddr("10.0.0.2:7946"), n.Addr)
+					b.conns = append(b.conns, c1, c2)
+					if !n.T.Accept(c2) {
+						return "not-accepted"
+					}
+					_, _ = c1.Write(pg)
+					_ = c1.SetReadDeadline(time.Now().Add(2 * time.Second))
+					buf := make([]byte, 64)
+					k, _ := c1.Read(buf)
+					return fmt.Sprint(k > 0)
+				}},
+				{"packet", func() string { n.T.Deliver(pg, simAddr("10.0.0.2:7946")); return "ok" }},
+			}, lifecycleFinish(n, false)
+		}, Horizon: 10 * time.Second},
+		{Name: "leave||join(refused)||members", Build: func(b *bubble) ([]tThread, func(map[string]string) (string, string, string)) {
+			n := tNode(b)
+			return []tThread{leaveT(n, "leave1"),
+				{"join", func() string { _, err := n.M.Join([]string{"10.0.0.2:7946"}); return fmt.Sprint(err != nil) }},
+				{"members", func() string { return fmt.Sprint(len(n.M.Members()) <= 2, n.M.NumMembers() <= 2) }},
+				gossipThread(n, 4)}, lifecycleFinish(n, false)
+		}, Horizon: 12 * time.Second},
 		{Name: "leave||update||accusation||gossip", Build: func(b *bubble) ([]tThread, func(map[string]string) (string, string, string)) {
 			n := tNode(b)
 			own := n.M.VSnapshot().Incarnation
